@@ -1048,4 +1048,45 @@ for k$u := 0; k$u < 2; k$u++ {
 	}
 	call$u(fs$u)
 }
+
+### structphicall funcval
+@decls
+type Cmd$u struct {
+	name string
+	run  func()
+}
+
+func qa$u()                            { rt.Enter($e0) }
+func qb$u()                            { rt.Enter($e1) }
+func exec$u(c Cmd$u)                   { rt.Enter($e2); c.run() }
+func mk$u(n string, f func()) Cmd$u { rt.Enter($e3); return Cmd$u{name: n, run: f} }
+@body
+for i$u := 0; i$u < 2; i$u++ {
+	c$u := mk$u("a", qa$u)
+	if i$u == 1 {
+		c$u = mk$u("b", qb$u)
+	}
+	exec$u(c$u)
+}
+
+### structphicalliface iface
+@decls
+type I$u interface{ m() }
+type A$u struct{ n int }
+type B$u struct{ n int }
+type Holder$u struct {
+	n int
+	i I$u
+}
+
+func (a A$u) m()                { rt.Enter($e0) }
+func (b B$u) m()                { rt.Enter($e1) }
+func use$u(h Holder$u)      { rt.Enter($e2); h.i.m() }
+func mkh$u(i I$u) Holder$u { rt.Enter($e3); return Holder$u{n: 1, i: i} }
+@body
+h$u := mkh$u(A$u{})
+for k$u := 0; k$u < 2; k$u++ {
+	use$u(h$u)
+	h$u = mkh$u(B$u{})
+}
 `
